@@ -14,6 +14,7 @@ MAX_HANDLE = 60
 FIXTURE_KIND = 'elf'
 QUICK_N = 3500
 CPU_LIMIT = 10
+KNOWN_INPUTS = True      # findings are listed by site (known_findings.json) and by input (known_inputs/)
 DEP_EXEMPT = True     # the property says "in libabigail code": a crash with no libabigail frame is counted as in-dependency
 LEGAL_READS = ()
 ASSUMPTIONS = ['decided part only: single stored-image faults in the ELF header, program/section header tables, symbol, hash, version and dynamic sections, .debug_abbrev and the head of .debug_info, plus lost sectors and truncation',
